@@ -397,6 +397,9 @@ class State:
                 mk.append((name, tuple(sorted((cs(a), cs(b)) for a, b in v.items() if a in mapping))))
             elif name == 'nth':
                 mk.append((name, tuple(sorted(((cs(a[1]),) + a[2:], cs(b)) for a, b in v.items() if a[1] in mapping and b in mapping))))
+            elif name == 'lapp':
+                mk.append((name, tuple(sorted(((dd, tuple(cs(x) for x in E), tuple((cs(x), n) for x, n in C), None if OK is None else tuple(cs(x) for x in OK))
+                                               for dd, (E, C, OK) in v.items()), key=repr))))
             elif name == 'lastapp':
                 mk.append((name, tuple(sorted(((cs(a), vkey(b)) for a, b in v.items() if a in mapping), key=repr))))
             elif name.startswith('ref:'):
